@@ -15,7 +15,7 @@ from .driver import Accounting, Suspend, Task
 from .graph import build_paths
 from .instruments import Cancelled
 from .report import Verdict
-from .tlc import read_ndjson, run_tlc
+from .tlc import MachineryError, read_ndjson, run_tlc
 
 
 class BodyError(Exception):
@@ -224,12 +224,15 @@ def replay_path(args):
 
 def check(prop, tier, seed, into=None):
     v = into or Verdict(prop, tier, seed)
+    label_counts = {}
     tot = {"states": 0, "transitions": 0, "paths": 0}
     for cfg in TIERS[tier]:
         res = run_tlc("Decorator", cfg_text(*cfg), outfiles=["edges.ndjson"], timeout=3000)
         tot["states"] += res["distinct"]
         tot["transitions"] += res["generated"]
         edges = read_ndjson(res["files"]["edges.ndjson"])
+        for e_ in edges:
+            label_counts[e_["a"][0]] = label_counts.get(e_["a"][0], 0) + 1
         paths = build_paths(edges, lambda f: all(x == "new" for x in f["pc"]))
         tot["paths"] += len(paths)
         with mp.Pool(min(16, os.cpu_count() or 4)) as pool:
@@ -239,9 +242,13 @@ def check(prop, tier, seed, into=None):
         if paths:
             v.sample({"cfg": list(cfg), "schedule": [e["a"] for e in paths[len(paths) // 2]]})
     v.assumptions += ["enter, body and exit each suspend once; managers are the instrumented ones of harness/eng_decor.py"]
+    vac = dict(label_counts)
+    missing = [a for a in ["start", "entered", "bodyend", "exited", "cancel"] if not vac.get(a)]
+    if missing:
+        raise MachineryError(f"vacuity guard: actions never taken in the explored graphs: {missing}")
     return v.finish({
         "states": tot["states"], "transitions": tot["transitions"], "traces_validated_against_impl": tot["paths"],
-        "edge_cover_paths": tot["paths"], "configs": [list(c) for c in TIERS[tier]], "exhaustive": True,
+        "edge_cover_paths": tot["paths"], "configs": [list(c) for c in TIERS[tier]], "exhaustive": True, "vacuity_guard_actions_taken": vac,
         "evaluations": tot["paths"], "distinct_nontrivial": tot["paths"],
         "rule": "one replay per transition of the Decorator state graph (shortest schedule + that step)",
         "checker_cmd": "tlc spec/Decorator.tla (INVARIANTs OwnGenerator, Paired, Result)",
